@@ -285,6 +285,13 @@ def run(report, db, tier):
     from . import c02
     from ..fold import Folder
     BASIC = 'minecraft.networking.types.basic'
+    from . import c01
+    borrow(report, 'R17.6', "the request the hash is computed from is this "
+           "connection's: the frame buffer is made per read, not shared "
+           "between reactors (C01's reader rule)",
+           lambda rid, c: c == 'reader:shared-buffer',
+           lambda sub: c01.reader(sub, db, shared.summariser(db, cg),
+                                  ConnModel(db, cg), rule_id='R17.6x'))
     borrow(report, 'R17.5', "the server id is decoded as the server sent it "
            "(C02's length-prefixed String rule)",
            lambda rid, c: rid == 'R02.4' and 'String' in c,
